@@ -414,12 +414,17 @@ impl<'a> Parser<'a> {
         // the global query_source.
         self.query_source += &query_source;
         self.query_source += "\n";
-        let query = Query::new(language, &query_source).map_err(|mut e| {
+        // The pattern is compiled with one blank in front of it: when tree-sitter reports an
+        // unknown node, field or capture name it inspects the byte before the name, and panics
+        // if the name is the very first byte of the source (e.g. `nosuchfield: (identifier)`).
+        let query = Query::new(language, &(" ".to_owned() + &query_source)).map_err(|mut e| {
+            // undo the shift by the extra blank
+            e.offset = e.offset.saturating_sub(1);
             // the column of the first row of a query pattern must be shifted by the whitespace
             // that was already consumed
             if e.row == 0 {
                 // must come before we update e.row!
-                e.column += location.column;
+                e.column = e.column.saturating_sub(1) + location.column;
             }
             e.row += location.row;
             e.offset += query_start;
